@@ -6,10 +6,6 @@ replaced", markers folded tag by tag) computes exactly the abstract store of `Sp
 same reply, same retrievable events in the same order, same markers, same log. -/
 namespace Pocket
 
-def Abs.of (s : Store) : Abs :=
-  { live := s.db.live.map (·.e), delIds := s.db.delIds, delAddrs := s.db.delAddrs,
-    log := s.log.map (fun x => (x.off, x.e)), «end» := s.end }
-
 /-- removing, from the transaction view `t`, the entries whose offset is that of a committed victim is
 filtering `t` by the victim predicate — provided offsets identify committed entries and victims in `t`
 are committed -/
